@@ -228,6 +228,7 @@ type CObs struct {
 	Closed  bool   `json:"closed"`
 	EstAPI  bool   `json:"established_api"`
 	ErrText string `json:"err,omitempty"`
+	Client  *bool  `json:"client_published,omitempty"` // the high-level Client published a channel for this script
 }
 
 func (o *CObs) Coq() string {
@@ -246,7 +247,76 @@ func (o *CObs) Coq() string {
 	}
 	return coqfmt.Record("co_trace", coqfmt.List(tr), "co_out", out, "co_state", coqState(o.State), "co_sid", coqfmt.Str(o.SID),
 		"co_local", coqfmt.Nat(o.Local), "co_remote", coqfmt.Nat(o.Remote), "co_closed", coqfmt.Bool(o.Closed),
-		"co_est", coqfmt.Bool(o.EstAPI))
+		"co_est", coqfmt.Bool(o.EstAPI), "co_client", optBool(o.Client))
+}
+
+func optBool(b *bool) string {
+	if b == nil {
+		return coqfmt.None
+	}
+	return coqfmt.Some(coqfmt.Bool(*b))
+}
+
+// runClientEstablish gives a real high-level Client a transport factory whose every connection is
+// answered with the script, and reports whether Establish published a channel within its deadline
+// (Client.buildChannel must only publish a channel for a session the server established).
+func runClientEstablish(conf *CConf, script []SIn) bool {
+	var conns []*memconn.Conn
+	var mu sync.Mutex
+	cfg := lime.NewClientConfig()
+	cfg.Node = lime.Node{Identity: lime.Identity{Name: "u1", Domain: "verif.test"}, Instance: "i1"}
+	cfg.ChannelBufferSize = 4
+	cfg.CompSelector = compSelector(conf.CompSel)
+	cfg.EncryptSelector = encSelector(conf.EncSel)
+	cfg.Authenticator = authenticatorOf(conf.Auth)
+	cfg.NewTransport = func(ctx context.Context) (lime.Transport, error) {
+		cmem, smem := memconn.Pipe(0)
+		mu.Lock()
+		conns = append(conns, cmem, smem)
+		mu.Unlock()
+		go func() {
+			go func() { // drain what the client writes
+				buf := make([]byte, 4096)
+				for {
+					if _, err := smem.Read(buf); err != nil {
+						return
+					}
+				}
+			}()
+			for _, in := range script {
+				// the client waits for the server, and everything it wrote was read
+				waitUntil(100*time.Millisecond, func() bool { return cmem.ReaderWaiting() && smem.Pending() == 0 })
+				if in.Kind == "eof" {
+					_ = smem.Close()
+					return
+				}
+				if _, err := smem.Write(in.line()); err != nil {
+					return
+				}
+			}
+		}()
+		return lime.NewTCPTransportOverConn(cmem, false, nil), nil
+	}
+	published := false
+	func() {
+		defer func() { _ = recover() }()
+		client := lime.NewClient(cfg, &lime.EnvelopeMux{})
+		ctx, cancel := context.WithTimeout(context.Background(), 150*time.Millisecond*slack)
+		published = client.Establish(ctx) == nil
+		cancel()
+		mu.Lock()
+		for _, c := range conns {
+			_ = c.Close()
+		}
+		mu.Unlock()
+		done := make(chan struct{})
+		go func() { _ = client.Close(); close(done) }()
+		select {
+		case <-done:
+		case <-time.After(3 * time.Second):
+		}
+	}()
+	return published
 }
 
 type CCase struct {
